@@ -30,6 +30,7 @@ type target struct {
 // Files and the receiver-rooted objects whose uses are scheduling points.
 var plan = []target{
 	{"storage/pebble/storage.go", []string{"c.size", "c.radius", "c.db", "batch.Commit", "cs.db", "cs.size", "cs.radius"}},
+	{"state/storage.go", []string{"s.store"}},
 	{"portalwire/portal_protocol.go", []string{"p.transferringKeyCache", "p.Utp", "p.contentQueue", "p.offerQueue", "p.cacheTransferringKeys", "p.deleteTransferringContentKeys", "p.storage", "permit.Release", "p.filterContentKeys", "p.handleOfferedContents"}},
 	{"portalwire/portal_protocol_v1.go", []string{"p.transferringKeyCache", "p.contentQueue", "p.storage"}},
 	// lock hooks only (no yield targets): the table's mutexes are modelled by the scheduler
